@@ -60,8 +60,14 @@ class VClock(object):
 
 
 class SelectShim(object):
+    unwritable_rate = 0.0        # probability that the socket is reported not writable (send buffer full)
+    rng = None
+
     def select(self, r, w, x, timeout=None):
-        return [s for s in r if getattr(s, "fifo", None)], list(w), []
+        ww = list(w)
+        if self.unwritable_rate and self.rng is not None and self.rng.random() < self.unwritable_rate:
+            ww = []
+        return [s for s in r if getattr(s, "fifo", None)], ww, []
 
 
 _PATCHED = {}
@@ -358,6 +364,8 @@ class ClientEnd(object):
         self.updates_per_step = 1    # application frames per server tick
         self.on_connected = []       # callables(client) run inside the connect callback
         self.on_connecting = []      # callables(client) run right after connect() returned (status CONNECTING)
+        self.collect_every = 1       # the application collects its messages every n-th frame
+        self._held_lists = []        # [list returned by getMessages(), length when it was returned]
         self.last_datagram = None
 
     @property
@@ -404,9 +412,22 @@ class ClientEnd(object):
         except Exception as e:
             self.update_errors.append((self.world.clock.now, repr(e), self.last_origin))
             self.world.counters.inc("client_update_raised")
+        # an application that keeps the lists getMessages() gave it (a per-frame inbox looked at later): what it finds in them later
+        # is what it processes - a returned list that grows afterwards hands it messages a second time
+        for held in self._held_lists:
+            lst, n_seen = held
+            if len(lst) > n_seen:
+                self.world.counters.inc("returned_message_list_grew")
+                for seqnum, msg in lst[n_seen:]:
+                    self.world.on_deliver("client", self, seqnum, msg)
+                held[1] = len(lst)
+        if self.collect_every > 1 and self.world.ticks % self.collect_every:
+            return                   # a lazy reader: update() every frame, the inbox only now and then
         # the application reads what arrived: in bulk, or one message at a time (hasMessages()/getMessage())
         if self.read_bulk:
             got = self.udp.getMessages()
+            self._held_lists.append([got, len(got)])
+            del self._held_lists[:-3]
         else:
             got = []
             while self.udp.hasMessages():
@@ -579,6 +600,8 @@ class World(object):
         self.server.transport = Transport(self)
         self.thread = self.server.thread
         self.send_errors = []
+        self.reactor_lag = 0         # ticks the (simulated) reactor thread may be behind with sending
+        self._reactor_queue = []
         self.thread.send = self._reactor_send
         self.thread.cv_queue = CvShim(self, self.thread.lk_queue)
         self.net = Net(self, rng)
@@ -599,11 +622,20 @@ class World(object):
     def _reactor_send(self, seq):
         # the deployment hands the batch to the reactor thread (callFromThread); an exception there is
         # logged by twisted and does not reach the server loop.  Same here, but recorded.
-        try:
-            self.server.sendPacketsUnsafe(seq)
-        except Exception as e:
-            self.send_errors.append((self.clock.now, repr(e)))
-            self.counters.inc("send_path_raised")
+        # The reactor may be busy: with reactor_lag = n the batches of the last n ticks wait and are encoded together, later (the
+        # packets were BUILT tick by tick; what the reactor does with them must not depend on when it gets to them).
+        self._reactor_queue.append((self.ticks, seq))
+        lag = self.reactor_lag
+        if lag and (self.ticks % (lag + 1)) != 0 and len(self._reactor_queue) <= lag:
+            self.counters.inc("reactor_batches_delayed")
+            return
+        batches, self._reactor_queue = self._reactor_queue, []
+        for _t, sq in batches:
+            try:
+                self.server.sendPacketsUnsafe(sq)
+            except Exception as e:
+                self.send_errors.append((self.clock.now, repr(e)))
+                self.counters.inc("send_path_raised")
 
     def _server_yield(self, kind):
         with self._cv:
